@@ -153,6 +153,15 @@ func (x *Exec) call(st *State, c *ssa.Call) bool {
 	return true
 }
 
+func modifiesEverything(fc *FuncContract) bool {
+	for _, m := range fc.Modifies {
+		if m == "everything" {
+			return true
+		}
+	}
+	return false
+}
+
 func (x *Exec) havocHere(callee *ssa.Function) bool {
 	if x.fc == nil || callee == nil {
 		return false
@@ -507,7 +516,12 @@ func (x *Exec) applyContract(st *State, c *ssa.Call, callee *ssa.Function, fc *F
 	}
 	oldHeap := copyHeap(st.heap)
 	oldWM := st.wm
-	x.havocModifies(st, callee, fc, vars, oldHeap)
+	if modifiesEverything(fc) {
+		// the callee's frame is unrestricted: only its postconditions say anything about the heap afterwards
+		x.havocAll(st)
+	} else {
+		x.havocModifies(st, callee, fc, vars, oldHeap)
+	}
 	// results
 	sig := callee.Signature
 	var results []SV
@@ -541,6 +555,25 @@ func (x *Exec) applyContract(st *State, c *ssa.Call, callee *ssa.Function, fc *F
 	}
 	if x.fc != nil && len(st.frames) == 1 && len(x.fc.CallGhost[fc.Key]) > 0 {
 		x.callGhostUpdatesNamed(st, fc.Key, SV{}, args, results)
+	}
+	if x.fc != nil && len(st.frames) == 1 && len(x.fc.CallUse[fc.Key]) > 0 {
+		uenv := x.contractEnv(st, nil, st.entry)
+		x.bindLocals(uenv, st.top(), nil)
+		for i, a := range args {
+			uenv.vars[fmt.Sprintf("$%d", i)] = a
+		}
+		for i, r := range results {
+			uenv.vars[fmt.Sprintf("$result%d", i)] = r
+		}
+		if len(results) == 1 {
+			uenv.vars["$result"] = results[0]
+		}
+		for _, u := range x.fc.CallUse[fc.Key] {
+			if u.Kind != "call" || x.prog.contracts.Lemmas[u.Str] == nil {
+				x.fail("callsite %s: use needs a lemma application", fc.Key)
+			}
+			st.assume(uenv.evalBool(u))
+		}
 	}
 	switch len(results) {
 	case 0:
